@@ -269,6 +269,11 @@ Guard == {0, 1}
 
 NextT(t) ==
   \/ \E ra \in P(OptR), ma \in P(OptA), st \in P(Steps), x \in P(Extras), g \in P(Guard) : AddMeas(t, ra, ma, st, x, g)
+  \* simulation only: two more draws of a well-formed add_measurement, so that trials with several measurements are not rare
+  \/ SimK > 0 /\ \E ra \in P(IF Objective = "reward" THEN Rewards ELSE {NONE}), ma \in P(IF Objective = "acc" THEN Accs ELSE OptA),
+                    st \in P(Steps), x \in P(Extras) : AddMeas(t, ra, ma, st, x, 0)
+  \/ SimK > 0 /\ \E ra \in P(IF Objective = "reward" THEN Rewards ELSE {NONE}), ma \in P(IF Objective = "acc" THEN Accs ELSE OptA),
+                    st \in P(Steps), x \in P(Extras) : AddMeas(t, ra, ma, st, x, 0)
   \/ \E mk \in P(MetaKeys \cup {NONE}), ln \in P(LinkNames \cup {NONE}) :
        \E mv \in P(IF mk = NONE THEN {NONE} ELSE MetaVals), lu \in P(IF ln = NONE THEN {NONE} ELSE Urls) : Done(t, mk, mv, ln, lu)
   \/ \E ra \in P(OptR), ma \in P(OptA), st \in P(Steps), mk \in P(MetaKeys \cup {NONE}) :
